@@ -571,8 +571,22 @@ inductive COp where
   | get (c : Conf)
   | evict (id : String)
 
-/-- `Filters.Get`: `none` is "no custom filter", `some rules` the engine that is applied. -/
+/-- `Filters.Get`: `none` is "no custom filter", `some rules` the engine that is applied.  The cached
+engine is used only when its update time *equals* the one of the configuration asked for
+(`!item.updTime.Equal(c.UpdateTime)` → rebuild; the code after the round-5 `fix:` commit). -/
 def CU.step (s : CU) : COp → CU × Option (List String)
+  | .get c =>
+    if !c.enabled || c.rules.isEmpty then (s, none)
+    else match s c.id with
+      | some it =>
+        if it.upd ≠ c.upd then (s.put c.id ⟨c.upd, c.rules⟩, some c.rules)
+        else (s, some it.rules)
+      | none => (s.put c.id ⟨c.upd, c.rules⟩, some c.rules)
+  | .evict id => (s.del id, none)
+
+/-- The unfixed form: a cached engine was kept as long as its update time was not *before* the one
+asked for (`item.updTime.Before(c.UpdateTime)` → rebuild). -/
+def Old.cuStep (s : CU) : COp → CU × Option (List String)
   | .get c =>
     if !c.enabled || c.rules.isEmpty then (s, none)
     else match s c.id with
@@ -581,6 +595,10 @@ def CU.step (s : CU) : COp → CU × Option (List String)
         else (s, some it.rules)
       | none => (s.put c.id ⟨c.upd, c.rules⟩, some c.rules)
   | .evict id => (s.del id, none)
+
+def Old.cuRun : CU → List COp → List (Option (List String))
+  | _, [] => []
+  | s, op :: ops => (Old.cuStep s op).2 :: Old.cuRun (Old.cuStep s op).1 ops
 
 def CU.run : CU → List COp → List (Option (List String))
   | _, [] => []
@@ -591,15 +609,23 @@ def cuFresh : COp → Option (List String)
   | .get c => if !c.enabled || c.rules.isEmpty then none else some c.rules
   | .evict _ => none
 
-/-- A history of configurations in which the update time identifies the version and never goes
-back: every configuration is at least as new as all earlier ones of the same profile, and equal
-times mean equal rules (what `backendpb` delivers: `UpdateTime = time.Now()` on every change). -/
+/-- A history of configurations in which the update time identifies the version: two configurations
+of one profile with equal times have equal rules.  The times need not be ordered in any way (the
+unfixed code needed them never to go back: `VersionedMono`). -/
 def Versioned : List Conf → List COp → Prop
   | _, [] => True
   | seen, .get c :: ops =>
-    (∀ c' ∈ seen, c'.id = c.id → c'.upd ≤ c.upd ∧ (c'.upd = c.upd → c'.rules = c.rules)) ∧
+    (∀ c' ∈ seen, c'.id = c.id → c'.upd = c.upd → c'.rules = c.rules) ∧
       Versioned (c :: seen) ops
   | seen, .evict _ :: ops => Versioned seen ops
+
+/-- The stronger hypothesis the unfixed code needed: the times of a profile never go back either. -/
+def VersionedMono : List Conf → List COp → Prop
+  | _, [] => True
+  | seen, .get c :: ops =>
+    (∀ c' ∈ seen, c'.id = c.id → c'.upd ≤ c.upd ∧ (c'.upd = c.upd → c'.rules = c.rules)) ∧
+      VersionedMono (c :: seen) ops
+  | seen, .evict _ :: ops => VersionedMono seen ops
 
 /-! ### Small-step custom-filter storage: `Filters.Get` is `cache.Get` … compile … `cache.Set` -/
 
@@ -629,7 +655,7 @@ def CUS.step (s : CUS) : CSOp → CUS × Option (Option (List String))
     if !c.enabled || c.rules.isEmpty then (s, some none)
     else match s.cache c.id with
       | some it =>
-        if it.upd < c.upd then ({ s with threads := ⟨tid, c⟩ :: s.threads.filter (fun t => t.tid ≠ tid) }, none)
+        if it.upd ≠ c.upd then ({ s with threads := ⟨tid, c⟩ :: s.threads.filter (fun t => t.tid ≠ tid) }, none)
         else (s, some (some it.rules))
       | none => ({ s with threads := ⟨tid, c⟩ :: s.threads.filter (fun t => t.tid ≠ tid) }, none)
   | .set tid =>
@@ -648,11 +674,11 @@ def CUS.run : CUS → List CSOp → List (Option (Option (List String)))
   | _, [] => []
   | s, op :: ops => (s.step op).2 :: CUS.run (s.step op).1 ops
 
-/-- `Versioned` for small-step histories: the order that counts is the order of the `Get` calls. -/
+/-- `Versioned` for small-step histories. -/
 def VersionedS : List Conf → List CSOp → Prop
   | _, [] => True
   | seen, .get _ c :: ops =>
-    (∀ c' ∈ seen, c'.id = c.id → c'.upd ≤ c.upd ∧ (c'.upd = c.upd → c'.rules = c.rules)) ∧
+    (∀ c' ∈ seen, c'.id = c.id → c'.upd = c.upd → c'.rules = c.rules) ∧
       VersionedS (c :: seen) ops
   | seen, _ :: ops => VersionedS seen ops
 
@@ -708,8 +734,9 @@ inductive YOp where
   | change (id : String) (rules : List String) (dt : Nat)
   /-- a successful `profiledb.Default.Refresh`, `dt + 1` local ticks after the previous one -/
   | sync (full : Bool) (dt : Nat)
-  /-- the process restarts: `profiledb` from the cache file, a new (empty) filter storage -/
-  | restart
+  /-- the process restarts: `profiledb` from the cache file, a new (empty) filter storage; the wall
+  clock of the new process is `back` ticks behind the one of the old process (`0`: it goes on) -/
+  | restart (back : Nat)
   /-- a request of a device of the profile: `db` lookup, `ForConfig`, `custom.Filters.Get` -/
   | query (id : String)
   /-- LRU eviction from the custom-filter cache -/
@@ -735,7 +762,7 @@ def Sync.step (stamp : Stamp) (s : Sync) : YOp → Sync × Option (List String)
       | none => if full then none else s.db id
     ({ s with now := now', btime := s.btime + 1, db := db', syncTime := s.btime + 1,
               file := if full then db' else s.file, fileSync := if full then s.btime + 1 else s.fileSync }, none)
-  | .restart => ({ s with db := s.file, syncTime := s.fileSync, cache := Tbl.empty }, none)
+  | .restart back => ({ s with db := s.file, syncTime := s.fileSync, cache := Tbl.empty, now := s.now - back }, none)
   | .query id =>
     match s.db id with
     | some c => ({ s with cache := (s.cache.step (.get c)).1 }, (s.cache.step (.get c)).2)
@@ -761,6 +788,37 @@ def Sync.runFresh (stamp : Stamp) : Sync → List YOp → List (Option (List Str
   | _, [] => []
   | s, .query id :: ops => s.fresh id :: Sync.runFresh stamp (s.step stamp (.query id)).1 ops
   | s, op :: ops => none :: Sync.runFresh stamp (s.step stamp op).1 ops
+
+/-- No restart of the history sets the wall clock back. -/
+def NoSetBack : List YOp → Prop
+  | [] => True
+  | .restart back :: ops => back = 0 ∧ NoSetBack ops
+  | _ :: ops => NoSetBack ops
+
+/-- Every stamp a synchronisation puts on the profiles it delivers differs from every stamp that is
+still held somewhere (profile database, cache file, custom-filter cache).  With a clock that was set
+back across a restart this is what remains of `StrictStamp`: a reading of the new process must not
+coincide, to the nanosecond, with a reading of the old one. -/
+def StampsFresh (stamp : Stamp) : Sync → List YOp → Prop
+  | _, [] => True
+  | s, .sync full dt :: ops =>
+    (∀ x, (∃ id c, s.db id = some c ∧ c.upd = x) ∨ (∃ id c, s.file id = some c ∧ c.upd = x) ∨
+          (∃ id it, s.cache id = some it ∧ it.upd = x) →
+        x ≠ stamp (s.now + dt + 1) (if full then 0 else s.syncTime)) ∧
+      StampsFresh stamp (s.step stamp (.sync full dt)).1 ops
+  | s, op :: ops => StampsFresh stamp (s.step stamp op).1 ops
+
+/-- The pipeline with the unfixed custom-filter storage (`Old.cuStep`). -/
+def Old.syncStep (stamp : Stamp) (s : Sync) : YOp → Sync × Option (List String)
+  | .query id =>
+    match s.db id with
+    | some c => ({ s with cache := (Old.cuStep s.cache (.get c)).1 }, (Old.cuStep s.cache (.get c)).2)
+    | none => (s, none)
+  | op => s.step stamp op
+
+def Old.syncRun (stamp : Stamp) : Sync → List YOp → List (Option (List String))
+  | _, [] => []
+  | s, op :: ops => (Old.syncStep stamp s op).2 :: Old.syncRun stamp (Old.syncStep stamp s op).1 ops
 
 /-- The rules the backend has for a profile (what a full synchronisation must put in force). -/
 def backendRules (backend : List BProf) (id : String) : Option (List String) :=
